@@ -103,9 +103,12 @@ func checkFetch(t *testing.T, c Case) (v harness.Verdict) {
 	var mu sync.Mutex
 	var got []batchRec
 	late := make([]int64, 2)
+	var warm []*warmResult
 	outs := runCase(t, "fetch", &c, log, func(f *fakeLog, st *runState) (func(ctx context.Context) error, func()) {
-		opts := &scanner.FetcherOptions{BatchSize: c.Batch, ParallelFetch: c.Fetchers, StartIndex: c.Start, EndIndex: c.End, Continuous: c.Continuous}
-		fe := scanner.NewFetcher(f, opts)
+		for _, w := range c.Warm {
+			warm = append(warm, runWarm(w, log))
+		}
+		fe := scanner.NewFetcher(f, fetcherOptions(&c))
 		run := func(ctx context.Context) error {
 			return fe.Run(ctx, func(b scanner.EntryBatch) {
 				ph := int(st.phase.Load())
@@ -123,6 +126,9 @@ func checkFetch(t *testing.T, c Case) (v harness.Verdict) {
 		return run, fe.Stop
 	})
 	classify(&c, outs, &v)
+	for i, w := range warm {
+		w.judge(i, &v)
+	}
 	for _, o := range outs {
 		o.late = late[o.phase]
 		var mine []batchRec
@@ -134,6 +140,27 @@ func checkFetch(t *testing.T, c Case) (v harness.Verdict) {
 		judgeFetchPhase(&c, o, log, mine, &v)
 	}
 	return v
+}
+
+// fetcherOptions builds the options of the main object: a literal, or the package defaults modified only
+// through the documented fields that differ from them (EndIndex 0 = tree size, StartIndex 0, one-shot).
+func fetcherOptions(c *Case) *scanner.FetcherOptions {
+	if !c.Defaults {
+		return &scanner.FetcherOptions{BatchSize: c.Batch, ParallelFetch: c.Fetchers, StartIndex: c.Start, EndIndex: c.End, Continuous: c.Continuous}
+	}
+	opts := scanner.DefaultFetcherOptions()
+	opts.BatchSize = c.Batch
+	opts.ParallelFetch = c.Fetchers
+	if c.Start != 0 {
+		opts.StartIndex = c.Start
+	}
+	if c.End != 0 {
+		opts.EndIndex = c.End
+	}
+	if c.Continuous {
+		opts.Continuous = true
+	}
+	return opts
 }
 
 // judgeFetchPhase applies the delivery oracles to one Run call: exactly-once and completeness hold per call.
@@ -258,6 +285,17 @@ func classify(c *Case, outs []*outcome, v *harness.Verdict) {
 	}
 	if c.PreStop {
 		v.Class("reuse:stop-before-first-run")
+	}
+	if c.Defaults {
+		v.Class("options:from-package-defaults", fmt.Sprintf("options:earlier-default-fetches=%d", len(c.Warm)))
+		for _, w := range c.Warm {
+			if f.firstSTH >= 0 && w.Size < f.firstSTH && c.End == 0 {
+				v.Class("options:earlier-default-fetch-on-smaller-log,end=0")
+				break
+			}
+		}
+	} else {
+		v.Class("options:literal")
 	}
 	if len(outs) > 1 {
 		a := outs[1]
